@@ -1,7 +1,10 @@
 """stubtest does not understand run-time TypeAliasType objects created by PEP 695 `type X = ...` statements.
 
 Exit status 1 = defect present, 0 = absent, 2 = inconclusive (preconditions of the input failed).
-Mechanism keys: stubtest:parse-only:pep695-alias:runtime TypeAliasType object is not understood, stubtest:semantic:pep695-alias:runtime TypeAliasType object is not understood"""
+Mechanism keys:
+  stubtest:parse-only:pep695-alias:runtime TypeAliasType object is not understood
+  stubtest:semantic:pep695-alias:runtime TypeAliasType object is not understood
+"""
 import os
 import sys
 
